@@ -130,6 +130,17 @@ Definition itod_buf (buf : bytes) (v : Z) : outcome bytes :=
 Definition pool32 : bytes := repeat 0 32.
 Definition itod (v : Z) : outcome bytes := itod_buf pool32 v.
 
+(* Ownership of that buffer.  The string itod returns is bs.BytesToString(buf[i+1:]):
+   it SHARES the memory of the pooled buffer (no copy).  The model's itod returns a
+   value, which is only faithful if nobody else can write that memory afterwards,
+   i.e. if the buffer is never handed back to the pool by sockaddr.go.  The uses of
+   the byte-slice pool in pkg/socket/sockaddr.go are therefore part of the model:
+   (enclosing function, pool function, argument text, inside a defer?) — exactly one
+   Get and no Put.  The translator harness/cmd/gensockpool regenerates this list from
+   the current source on every run and Coq checks that it is this one. *)
+Definition pool_sites : list (string * string * string * bool) :=
+  [("itod"%string, "Get"%string, "32"%string, false)].
+
 (* ---- sockaddr.go: ip6ZoneToInt / ip6ZoneToString ---- *)
 Definition zone_to_int (tbl : list iface) (zone : bytes) : Z :=
   if is_empty zone then 0
@@ -292,6 +303,11 @@ Definition listen_sockaddr (tbl : list iface) (proto : Z) (ip : bytes) (port : Z
      rts tcp|udp <sockaddr>                             -> obs na <netaddr> ; obs sa <sockaddr>   (back and there)
      lsa <proto 0|4|6> <xip> <port> <xzone>             -> obs lsa <family> <v6only> <sockaddr> | obs lsa err
      int <scenario>                                     (no obs) live-server scenario, judged by the driver's oracle
+     keep tcp|udp <sockaddr>                            -> obs na <netaddr>      converted address kept alive by the driver
+     keepz <zone>                                       -> obs zs <x>            zone string kept alive
+     churn <n>                                          (no obs) pool / buffer activity by other users
+     recheck <i>                                        -> the obs of the i-th keep/keepz, read again
+     netns <tag>                                        (no obs) marks a case run inside a private network namespace
    <sockaddr> ::= nil | sa4 <port> <xaddr> | sa6 <port> <zone> <xaddr> | unix <xname> | other
    <netaddr>  ::= nil | tcp <xip> <port> <xzone> | udp … | unix <xname> <xnet> *)
 Open Scope string_scope.
@@ -412,6 +428,7 @@ Definition sockaddr_line (tbl : list iface) (l : line) : list line :=
       | None => unknown
       end
   | ("int", _) => []     (* live-server scenario of the driver: oracle only, nothing to predict *)
+  | ("netns", _) => []
   | ("lsa", [AInt proto; ABytes ip; AInt p; ABytes z]) =>
       match listen_sockaddr tbl proto ip p z with
       | Some (fam, sa, v6only) => [obs "lsa" ([AInt fam; bool_arg v6only] ++ sa_args (Some sa))%list]
@@ -420,11 +437,59 @@ Definition sockaddr_line (tbl : list iface) (l : line) : list line :=
   | _ => unknown
   end.
 
-Definition sockaddr_step (st : list iface * list line) (l : line) : list iface * list line :=
-  match l with
-  | ("if", [ABytes n; AInt i]) => ((fst st ++ [(n, i)])%list, snd st)
-  | _ => (fst st, rev_append (sockaddr_line (fst st) l) (snd st))
+(* per-case state: interface table, the addresses / zone strings the driver keeps
+   alive (`keep`, `keepz`), observations in reverse order *)
+Record sa_state := { sa_tbl : list iface; sa_kept : list (list line); sa_obs : list line }.
+
+Definition sa_emit (st : sa_state) (ls : list line) : sa_state :=
+  {| sa_tbl := sa_tbl st; sa_kept := sa_kept st; sa_obs := rev_append ls (sa_obs st) |}.
+
+Definition sa_keep (st : sa_state) (ls : list line) : sa_state :=
+  {| sa_tbl := sa_tbl st; sa_kept := (sa_kept st ++ [ls])%list; sa_obs := rev_append ls (sa_obs st) |}.
+
+Definition keep_lines (tbl : list iface) (args : list arg) : option (list line) :=
+  match args with
+  | ASym k :: rest =>
+      match parse_sa rest with
+      | Some sa => Some (out_na (if sym_eqb k "udp" then sockaddr_to_udp tbl sa else sockaddr_to_tcp_or_unix tbl sa))
+      | None => None
+      end
+  | _ => None
   end.
 
+Definition keepz_lines (tbl : list iface) (args : list arg) : option (list line) :=
+  match args with
+  | [AInt z] => Some (match zone_to_string tbl z with
+                      | Ret s => [obs "zs" [ABytes s]]
+                      | Panic => [panic_line "zs"]
+                      end)
+  | _ => None
+  end.
+
+Definition sockaddr_step (st : sa_state) (l : line) : sa_state :=
+  let name := fst l in
+  let args := snd l in
+  if sym_eqb name "if" then
+    match args with
+    | [ABytes n; AInt i] => {| sa_tbl := (sa_tbl st ++ [(n, i)])%list; sa_kept := sa_kept st; sa_obs := sa_obs st |}
+    | _ => sa_emit st unknown
+    end
+  (* keep tcp|udp <sockaddr>: convert and keep the result alive; the value is observed now … *)
+  else if sym_eqb name "keep" then
+    match keep_lines (sa_tbl st) args with Some ls => sa_keep st ls | None => sa_emit st unknown end
+  else if sym_eqb name "keepz" then
+    match keepz_lines (sa_tbl st) args with Some ls => sa_keep st ls | None => sa_emit st unknown end
+  (* … churn <n>: other users of the byte-slice pool, linked-list buffers, further
+     conversions: nothing that may change a value handed out earlier … *)
+  else if sym_eqb name "churn" then st
+  (* … recheck <i>: the i-th kept value is read again and must be what it was *)
+  else if sym_eqb name "recheck" then
+    match args with
+    | [AInt i] => sa_emit st (if (i <? 0)%Z then unknown else nth (Z.to_nat i) (sa_kept st) unknown)
+    | _ => sa_emit st unknown
+    end
+  else sa_emit st (sockaddr_line (sa_tbl st) l).
+
 (* observations are accumulated in reverse order *)
-Definition run_sockaddr : runner := fun ls => rev (snd (fold_left sockaddr_step ls ([], []))).
+Definition run_sockaddr : runner :=
+  fun ls => rev (sa_obs (fold_left sockaddr_step ls {| sa_tbl := []; sa_kept := []; sa_obs := [] |})).
